@@ -33,6 +33,32 @@ def _signal(b):
         pass
 
 
+def _warm_cpython():
+    """CPython 3.12 delivers 'opcode' events only to trace functions installed *after* some frame had
+    f_trace_opcodes set for the first time in the interpreter (sys.settrace computes the event set from an
+    interpreter-wide flag). Set that flag once per process on a dummy frame, so the first real execution sees
+    the same event stream as every later one - independent of any code of the agent."""
+    def dummy():
+        return 0
+
+    def tr(frame, event, arg):
+        frame.f_trace_opcodes = True
+        return tr
+
+    def body():
+        sys.settrace(tr)
+        try:
+            dummy()
+        finally:
+            sys.settrace(None)
+    th = threading.Thread(target=body)
+    th.start()
+    th.join()
+
+
+_warm_cpython()
+
+
 class SchedAbort(BaseException):
     """Raised inside managed threads to unwind them when an execution is torn down."""
 
@@ -290,7 +316,6 @@ def explore(make, bound, ctx, on_exec, max_execs=None, shard=None, name=''):
     execution itself is counted by shard 0); the union over shards is the complete enumeration.
     Returns number of executions.
     """
-    run_one(make, [])   # warm-up, discarded: the first traced execution of a process may see fewer opcode events (lazy instrumentation)
     stack = [[]]
     n = 0
     root = True
@@ -369,15 +394,6 @@ def guard(ctx, pid, make, observe, case):
     except HarnessError as e:
         if 'hung' in str(e):
             raise
-        # CPython instruments a code object for opcode events lazily: the very first traced execution in a process can see
-        # a different event stream than every later one. A genuine leak reproduces; a warm-up effect does not.
-        try:
-            determinism_guard(make, observe)
-            return True
-        except HarnessError as e2:
-            if 'hung' in str(e2):
-                raise
-            e = e2
         ctx.violation(f'{pid}/state-leaks-between-executions', f'the same schedule run twice on fresh agent objects diverged: {e}', case)
         return False
 
